@@ -2710,6 +2710,12 @@ func (f *fragment) unprotectedRows(start uint64, filters ...rowFilter) []uint64 
 			continue
 		}
 
+		// skip empty containers (left behind by clears): a row exists
+		// only if it has a bit set.
+		if c.N() == 0 {
+			continue
+		}
+
 		// apply filters
 		addRow, done := true, false
 		for _, filter := range filters {
